@@ -120,7 +120,7 @@ def run(ctx, report):
                 r3.finding(bad[0], f"IBAN.random({cc!r}, use_registry={use_registry}) {bad[1]}", f_irand.where)
 
     # ------------------------------------------------------------------ R13-pinned
-    r4 = report.rule("R13-pinned", floor=200, what="every returned BBAN carries each pinned component unchanged (zero-padded) at its published range")
+    r4 = report.rule("R13-pinned", floor=200, what="every returned BBAN conforms to the country's structure at every position and carries each pinned component unchanged (zero-padded) at its published range; pins that cannot be placed validly are never returned")
     countries = [cc for cc in sorted(reg.countries) if reg.positions(cc) and struct_positions(reg, cc)]
     sites = {}
     from ..par import pmap
@@ -200,9 +200,9 @@ def run(ctx, report):
                        f_brand.where, witness={"country": cc, "entry bank_code": code})
     report.analysed = {"functions_scanned": len(scan), "countries": len(countries)}
     report.not_decided += ["that 100 retries suffice; 'for every seed a valid result' beyond the must-pass-through validation",
-                           "structure conformance of BBAN.random for pinned values of the wrong character class",
+                           "structure conformance of returned BBANs is decided on the explored pins (exact, short, leading zeros, too long, wrong class, non-ASCII digits), not for every pinned text",
                            "retry loops are evaluated for two iterations (iterations carry no state)"]
-    report.assumptions += ["rstr.xeger draws literals, ranges, \\d and bounded repeats through the supplied generator (read in rstr 3.2.2); random.Random is deterministic given its state"]
+    report.assumptions += ["rstr.xeger draws literals, ranges, \\d (from string.digits, i.e. the re.ASCII reading) and bounded repeats through the supplied generator (read in rstr 3.2.2); random.Random is deterministic given its state"]
 
 
 def _pinned_country(ctx, bban, cc):
